@@ -361,3 +361,23 @@ pub fn div_3x2_const<const DH: u64, const DL: u64>(nd: &mut Nd) {
     chk!(nd, "C14.div_3x2.quotient", got.0 == q);
     chk!(nd, "C14.div_3x2.remainder", got.1 == r);
 }
+
+/// as `div_3x2_const`, on the sub-domain "near-exact multiples": any quotient limb q, remainder r in {0..=3} or
+/// {d-4..=d-1} (the boundary cases of the two correction steps)
+pub fn div_3x2_const_edge<const DH: u64, const DL: u64>(nd: &mut Nd) {
+    let d: u128 = ((DH as u128) << 64) | DL as u128;
+    let q = nd.u64();
+    let rs = nd.u8();
+    let r: u128 = if rs & 4 != 0 { d - 1 - (rs & 3) as u128 } else { (rs & 3) as u128 };
+    let mut u = [0u64; 3];
+    let _ = add_at::<3>(&mut u, (q as u128) * (DL as u128), 0);
+    let _ = add_at::<3>(&mut u, (q as u128) * (DH as u128), 1);
+    let _ = add_at::<3>(&mut u, r, 0);
+    let u21 = ((u[2] as u128) << 64) | u[1] as u128;
+    let v = dv::reciprocal_2(d);
+    cov!(nd, "exact-multiple", r == 0 && q > 1 << 63);
+    cov!(nd, "top-quotient", q == u64::MAX);
+    let got = dv::div_3x2(u21, u[0], d, v);
+    chk!(nd, "C14.div_3x2.quotient", got.0 == q);
+    chk!(nd, "C14.div_3x2.remainder", got.1 == r);
+}
